@@ -372,6 +372,7 @@ def run_sequence(rec, pool, pr, rnd, nops, tmp, fresh_rate):
     names = sorted(pool['files'])
     flood_at = rnd.randrange(nops) if rnd.random() < .25 else -1
     flood_salt = rnd.randrange(10 ** 6)
+    flooded = []
     for step in range(nops):
         rec.count('history_ops')
         if step:
@@ -383,8 +384,10 @@ def run_sequence(rec, pool, pr, rnd, nops, tmp, fresh_rate):
             nflood = rnd.choice([300, 700, 1500])
             t0 = {'description': 'FLOOD', 'amount': 1.0}
             for i in range(nflood):
+                e = 'regex("Fl%dod%d") or contains("fl%d")' % (i, flood_salt, i)
+                flooded.append((e, 'Fl%dod%d' % (i, flood_salt)))
                 try:
-                    ep.evaluate_transaction('regex("Fl%dod%d") or contains("fl%d")' % (i, flood_salt, i), t0)
+                    ep.evaluate_transaction(e, t0)
                 except Exception:
                     pass
             rec.count('cache_floods')
@@ -524,6 +527,12 @@ def run_sequence(rec, pool, pr, rnd, nops, tmp, fresh_rate):
             rec.count('eval_vs_pristine')
             if got != want and 'oracle_error' not in want:
                 rec.violation('history-dependent-view-filter', f'{e!r}: {got} vs pristine {want}', dict(case_base, expr=e))
+
+    # the flood's own entries are dropped again at the end of the sequence (absent ones - evicted by a bounded cache - are simply skipped):
+    # the process keeps running thousands of sequences and the monitors' cost must not grow with them
+    for e, pat in flooded:
+        ep._expression_cache.pop(e, None)
+        ep._regex_cache.pop(pat, None)
 
 
 def run(rec, shard, nshards, t):
